@@ -7,6 +7,7 @@ import random
 import tempfile
 
 from . import qprops
+from . import smallscope as ss
 from .codec import Some, opt, plain
 from .core import Plugin, ROOT
 
@@ -254,6 +255,33 @@ class LoadPlugin(Plugin):
             strs = qprops.gen_strings(rng, recs_like[:8], d, rng.randint(1, 3))
             pairs = qprops.gen_pairs(rng, recs_like[:8], rng.randint(1, 2))
             yield [[tag, data], d, strs, pairs]
+
+    explanation = ("small-scope block: the constructor and from_extended_prefix_map on every ordered pair of records over {a, A, b} x "
+                   "{h/, h/a, k#} (one optional synonym on each side; clashes included); every prefix map, reverse prefix map and "
+                   "upgrade_prefix_map input of at most three entries and every priority prefix map of at most two entries over the same names; "
+                   "the thorough tier runs the whole block (exhaustive=true refers to that block only), the quick tier a fixed sample of it")
+
+    def exhaustive(self, tier):
+        import itertools as it
+        recs = ss.records()
+        strs, pairs = ss.probes(ss.P3, ss.U3)
+        cases = []
+        for r1 in recs:
+            for r2 in recs:
+                for tag in (0, 1):
+                    cases.append([[tag, [r1, r2]], ":", strs, pairs])
+        for m in ss.dicts(ss.P3, ss.U3, 3):
+            cases.append([[2, m], ":", strs, pairs])
+            cases.append([[6, m], ":", strs, pairs])
+        for m in ss.dicts(ss.U3, ss.P3, 3):
+            cases.append([[4, m], ":", strs, pairs])
+        lists = [[u] for u in ss.U3] + [[u, v] for u, v in it.permutations(ss.U3, 2)] + [[u, u] for u in ss.U3[:1]]
+        for k in (1, 2):
+            for ks in it.permutations(ss.P3, k):
+                for vs in it.product(lists, repeat=k):
+                    cases.append([[3, [[a, list(b)] for a, b in zip(ks, vs)]], ":", strs, pairs])
+        self.exhaustive_flag = tier == "thorough"
+        return ss.block(cases, tier, 500)
 
     def observe(self, case):
         return observe_load(case, files=self.files)
